@@ -261,6 +261,11 @@ func c09StringOps(s string, methods string) []*c09Op {
 		if !strings.Contains(s, "%") {
 			add("PrintfLit", &c09Op{text: "Printf(" + q + ")", pieces: c09One(true, s), valid: true,
 				run: func(t *c09Tgt) { t.sw.Printf(s) }})
+			// a format is interpreted also when there is no operand: %% is one '%', a verb reports its missing operand
+			add("PrintfPct", &c09Op{text: "Printf(" + fmt.Sprintf("%q", s+"100%% x") + ")", pieces: c09One(true, s+"100% x"), valid: true,
+				run: func(t *c09Tgt) { t.sw.Printf(s + "100%% x") }})
+			add("PrintfMissing", &c09Op{text: "Printf(" + fmt.Sprintf("%q", s+"%d") + ")", pieces: c09One(true, s+"%!d(MISSING)"), valid: true,
+				run: func(t *c09Tgt) { t.sw.Printf(s + "%d") }})
 			add("PrintfMix", &c09Op{text: "Printf(" + fmt.Sprintf("%q", s+"k=%v;%d"+s) + ", " + q + ", Safe(3))",
 				pieces: []c09Piece{{true, s + "k="}, {false, s}, {true, ";3" + s}}, valid: true,
 				run: func(t *c09Tgt) { t.sw.Printf(s+"k=%v;%d"+s, s, Safe(3)) }})
